@@ -349,6 +349,7 @@ def run_server(pool, items, nthreads, tmo):
     state = {"gen": pool.gen, "suspects": [], "restarts": 0, "planned": 0, "timeouts": 0, "n_in": 0, "pausing": False}
     TMO = {"timeout": True, "oom": False, "trace": False, "signal": 0, "alive": True, "recovered": False,
            "err": False, "kind": "", "site": "", "head": "", "rc": 0}
+    force = [False]
 
     def post(cid, src, sess, timeout):
         body = {"code": src.decode("utf8", "replace") + "\nmain()\n", "session": sess}
@@ -394,11 +395,12 @@ def run_server(pool, items, nthreads, tmo):
             while planned and state["n_in"] > 0 and time.time() - t0 < tmo + 2:
                 gate.wait(0.5)
         try:
-            if planned:
+            if planned and not force[0]:
                 c0 = pool.cpu()
                 time.sleep(0.4)
                 if pool.cpu() - c0 < 12:         # clock ticks (10 ms): less than a third of one core
                     return
+            force[0] = False
             pool.stop()
             state["planned" if planned else "restarts"] += 1
             if state["restarts"] > 60:
@@ -411,9 +413,22 @@ def run_server(pool, items, nthreads, tmo):
                 state["pausing"] = False
                 gate.notify_all()
 
+    def wedged(sess):
+        """a text that timed out may have left the server holding a lock every later request waits for: it still answers
+        /services/up but no longer runs anything"""
+        try:
+            r = pool.srv.req("POST", "/admin/run", {"code": "fmt.Println(1)\n", "session": sess}, token=pool.tok, timeout=tmo)
+            return r.status != 200
+        except Exception:
+            return True
+
     def worker(k):
         sess = str(uuid.UUID(int=(0xC07 << 100) + pool.no * 100 + k + 1))
-        for cid, src in items[k::nthreads]:
+        from collections import deque
+        todo = deque(items[k::nthreads])
+        streak, retried = [], set()            # consecutive time-outs
+        while todo:
+            cid, src = todo.popleft()
             if len(src) > 200000:
                 continue                       # the endpoint refuses bodies over 256 KiB before compiling anything
             gen = enter()
@@ -426,13 +441,31 @@ def run_server(pool, items, nthreads, tmo):
                 leave()
             if o is None and timed and pool.srv.alive():
                 o = dict(TMO)
+                res[cid] = o
+                streak.append((cid, src))
                 with lock:
                     state["timeouts"] += 1
                     many = state["timeouts"] >= 10
-                res[cid] = o
-                if many:
+                if len(streak) >= 2 and wedged(sess):
+                    # everything after the first text of the streak timed out because of the server, not of the text:
+                    # fresh server, and those texts once more (the first keeps its time-out)
+                    for it in reversed(streak[1:]):
+                        if it[0] not in retried:
+                            retried.add(it[0])
+                            res.pop(it[0], None)
+                            todo.appendleft(it)
+                    streak = []
+                    with gate:
+                        state["timeouts"] = 0
+                    state["wedged"] = state.get("wedged", 0) + 1
+                    if state["wedged"] > 80:
+                        raise vf.NoVerdict("the scratch server wedged more than 80 times")
+                    force[0] = True
+                    restart(gen, True)
+                elif many:
                     restart(gen, True)
                 continue
+            streak = []
             if o is not None:
                 res[cid] = o
                 continue
